@@ -64,9 +64,9 @@ Definition api (ask : string -> list val -> val) : list api_entry :=
   (* ---- C09: Stellar addresses with CRC-16/XMODEM inside the model *)
   ("crc16_xmodem_c", fun a => match a with [VB b] => Ok (VB (LinkCrc16.crc16_xmodem b)) | _ => bad_call end);
   ("xlm_encode_c", fun a => match a with [VN t; VB pub] =>
-      rb (AddrText.xlm_encode LinkCrc16.crc16_xmodem AddrInst.b32_enc_nopad t pub) | _ => bad_call end);
+      rb (AddrText.xlm_encode LinkCrc16.crc16_xmodem AddrCodecs.b32_enc_nopad t pub) | _ => bad_call end);
   ("xlm_decode_c", fun a => match a with [VN t; VB s] =>
-      rb (AddrText.xlm_decode valid_pub LinkCrc16.crc16_xmodem AddrInst.b32_dec t s) | _ => bad_call end);
+      rb (AddrText.xlm_decode valid_pub LinkCrc16.crc16_xmodem AddrCodecs.b32_dec t s) | _ => bad_call end);
   (* ---- C13: BIP-38 with the P2PKH address and UTF-8 inside the model *)
   ("bip38c_address", fun a => match a with [p; VN c] =>
       Ok (VB (LinkAddr.bip38_p2pkh sha256 rip pt k1_ser_c k1_ser_u (Api_serbip.pt_of p) (vbool c))) | _ => bad_call end);
